@@ -395,3 +395,35 @@ multi_block!(#[kani::stub(Idea::crypt, uf_crypt)] #[kani::unwind(53)]
 // @ob name=m_idea_dec_blocks_3 props=C04,C15 kind=bounded bound="n = 3 blocks" fn=idea::Idea::decrypt_with_backend,idea::Idea::decrypt_block uses=c_idea_crypt timeout=300
 multi_block!(#[kani::stub(Idea::crypt, uf_crypt)] #[kani::unwind(53)]
     m_idea_dec_blocks_3, 3, any_idea(), snap, eqsnap, BlockCipherDecrypt, decrypt_block, decrypt_blocks, decrypt_blocks_b2b);
+
+// TEMP-EXPERIMENT-BEGIN
+#[kani::proof]
+#[kani::unwind(14)]
+fn t_exp_d() {
+    let c = Idea { enc_keys: [0; 52], dec_keys: [0; 52] };
+    let t: u16 = kani::any();
+    kani::assume(t < 4096);
+    let a = 0x7000 + t;
+    let i = c.mul_inv(a);
+    assert!(c.mul(a, i) == 1);
+    assert!(bcref::idea::mul(a, i) == 1);
+}
+#[kani::proof]
+#[kani::unwind(17)]
+fn t_exp_e() {
+    let c = Idea { enc_keys: [0; 52], dec_keys: [0; 52] };
+    let t: u16 = kani::any();
+    kani::assume(t < 4096);
+    let a = 0x7000 + t;
+    let i = c.mul_inv(a);
+    assert!(i == bcref::idea::mul_inv(a));
+}
+#[kani::proof]
+#[kani::unwind(14)]
+fn t_exp_f() {
+    let c = Idea { enc_keys: [0; 52], dec_keys: [0; 52] };
+    let a: u16 = kani::any();
+    let i = c.mul_inv(a);
+    assert!(c.mul(a, i) == 1);
+}
+// TEMP-EXPERIMENT-END
